@@ -325,6 +325,30 @@ pub fn float_judge(c: &FloatCase, obs: &mut Obs) -> Result<(), String> {
         cmpd!("DVec2", <DVec2 as Lerp>::lerp(&DVec2::new(da[0], da[1]), &DVec2::new(db[0], db[1]), x).to_array(), 2);
         cmpd!("DVec3", <DVec3 as Lerp>::lerp(&DVec3::new(da[0], da[1], da[2]), &DVec3::new(db[0], db[1], db[2]), x).to_array(), 3);
         cmpd!("DVec4", <DVec4 as Lerp>::lerp(&DVec4::new(da[0], da[1], da[2], da[3]), &DVec4::new(db[0], db[1], db[2], db[3]), x).to_array(), 4);
+        // rotations: Quat / DQuat are not component-wise (they delegate to glam's normalising lerp, which
+        // first brings the end point into the hemisphere of the start); all that is asserted is what every
+        // property asks of any interpolation: finite input rotations give a finite, unit-length rotation -
+        // also for q -> -q (the same rotation) and for turns of more than 180 degrees
+        {
+            let unit = |v: [f32; 4]| -> Option<Quat> {
+                let q = Vec4::from_array(v);
+                let l = q.length();
+                if l.is_finite() && l > 1.0e-3 && l < 1.0e6 { Some(Quat::from_vec4(q / l)) } else { None }
+            };
+            if let (Some(qa), Some(qb)) = (unit(va), unit(vb)) {
+                for (name, a, b) in [("a->b", qa, qb), ("a->-a", qa, Quat::from_vec4(-Vec4::from(qa))), ("a->-b", qa, Quat::from_vec4(-Vec4::from(qb)))] {
+                    let r = <Quat as Lerp>::lerp(&a, &b, x);
+                    let l = Vec4::from(r).length();
+                    if !(r.is_finite() && (l - 1.0).abs() < 1.0e-3) {
+                        return Err(format!("Quat lerp {name}: lerp({a:?}, {b:?}, {x:?}) = {r:?} (length {l}) is not a finite unit rotation"));
+                    }
+                    let rd = <DQuat as Lerp>::lerp(&a.as_f64(), &b.as_f64(), x);
+                    if !(rd.is_finite() && (rd.length() - 1.0).abs() < 1.0e-3) {
+                        return Err(format!("DQuat lerp {name}: lerp({a:?}, {b:?}, {x:?}) = {rd:?} is not a finite unit rotation"));
+                    }
+                }
+            }
+        }
         // integer vectors
         let (ia, ib) = (c.ivec_a, c.ivec_b);
         let sci: Vec<i32> = match catch(|| (0..4).map(|i| ia[i].lerp(&ib[i], x)).collect::<Vec<i32>>()) {
@@ -378,7 +402,7 @@ pub fn float_judge(c: &FloatCase, obs: &mut Obs) -> Result<(), String> {
 /// The generated and enumerated lerp checks themselves (run by the release parent and, with a smaller
 /// budget, by the dbg-profile child: overflow checks and debug assertions ON).
 fn c14_checks(run: &mut Run) {
-    run.assume("the crate documents that interpolation arithmetic is done in f32: for integers above 2^24 and for floats the laws are asserted up to 2 ulp(f32) of the larger endpoint; Quat/DQuat delegate to glam's normalising lerp and are not component-wise (not asserted)");
+    run.assume("the crate documents that interpolation arithmetic is done in f32: for integers above 2^24 and for floats the laws are asserted up to 2 ulp(f32) of the larger endpoint; Quat/DQuat delegate to glam's normalising lerp and are not component-wise: only finiteness and unit length are asserted for them");
     // x values for the exhaustive 8-bit sweep
     let mut xs: Vec<f32> = (0..=256).map(|k| k as f32 / 256.0).collect();
     xs.extend([f32::from_bits(1), f32::MIN_POSITIVE, f32::EPSILON, 1.0 - f32::EPSILON / 2.0, 1.0 - f32::EPSILON, 0.5 - f32::EPSILON / 4.0, 0.5 + f32::EPSILON / 2.0]);
